@@ -591,6 +591,25 @@ func clip(b []byte, n int) []byte {
 	return b
 }
 
+// procCPUSeconds: user + system CPU time of a process so far (from /proc/<pid>/stat; 0 if unreadable).
+func procCPUSeconds(pid int) float64 {
+	b, err := os.ReadFile(fmt.Sprintf("/proc/%d/stat", pid))
+	if err != nil {
+		return 0
+	}
+	s := string(b)
+	if i := strings.LastIndex(s, ")"); i >= 0 {
+		s = s[i+1:]
+	}
+	f := strings.Fields(s)
+	if len(f) < 13 {
+		return 0
+	}
+	ut, _ := strconv.ParseFloat(f[11], 64)
+	st, _ := strconv.ParseFloat(f[12], 64)
+	return (ut + st) / 100
+}
+
 // RunC07 is the entry point of the C07 check.
 func RunC07(tier string, args []string) int {
 	if len(args) > 0 && args[0] == "worker" {
@@ -600,7 +619,7 @@ func RunC07(tier string, args []string) int {
 	chk := fw.NewCheck("C07", tier, "exploration")
 	chk.Assumptions = []string{
 		"allocation monitor: runtime.MemStats.TotalAlloc delta per case <= 1 MiB + 2048 x input length",
-		"workers run under `ulimit -v 6 GiB`; a worker that dies (fatal error: out of memory, stack overflow) or makes no progress for 20 s is attributed to the case recorded in its progress file",
+		"workers run under `ulimit -v 6 GiB`; a worker that dies (fatal error: out of memory, stack overflow) or burns 15 s of CPU on one case (or sits blocked for 5 minutes) is attributed to the case recorded in its progress file",
 		"hostile continuations are explored to depth 1 over the full token alphabet and depth 2 over the sub-alphabet, lazily (only where the parser asked for more bytes)",
 	}
 	nshards := 16
@@ -631,7 +650,10 @@ func RunC07(tier string, args []string) int {
 				go func() { exited <- cmd.Wait() }()
 				var werr error
 				hang := false
-				last, lastChange := "", time.Now()
+				// no progress is judged by the CPU time the worker has burnt on the current case (a loop which does not
+				// consume input spins), not by the wall clock: a starved worker on a busy machine is not a hang. A worker
+				// which is blocked without using CPU is given 5 minutes.
+				last, lastChange, cpuAtChange := "", time.Now(), procCPUSeconds(cmd.Process.Pid)
 			wait:
 				for {
 					select {
@@ -640,9 +662,10 @@ func RunC07(tier string, args []string) int {
 					case <-time.After(2 * time.Second):
 						b, _ := os.ReadFile(progress)
 						cur := string(clip(b, 10))
+						cpu := procCPUSeconds(cmd.Process.Pid)
 						if cur != last {
-							last, lastChange = cur, time.Now()
-						} else if time.Since(lastChange) > 20*time.Second {
+							last, lastChange, cpuAtChange = cur, time.Now(), cpu
+						} else if cpu-cpuAtChange > 15 || time.Since(lastChange) > 5*time.Minute {
 							hang = true
 							cmd.Process.Kill()
 							werr = <-exited
